@@ -187,6 +187,9 @@ func cmdS10(args []string) {
 					}
 					continue
 				}
+				if rw.ParseOnly {
+					continue // a proposal without a located extent cannot be executed
+				}
 				if rewrite.ParsesAs(rw.Kind, rw.New) != nil {
 					cnt.Add("rewrites_not_parsing_c09s_business", 1)
 					continue
